@@ -205,6 +205,16 @@ template <class K, class V> void FromCanon(const JVal& v, std::map<K, V>& out)
 //-----------------------------------------------------------------------------
 // The script interpreter
 //-----------------------------------------------------------------------------
+// Fixed-point support (C01 load-save-load): pass 1 (load) records what every op loaded, pass 2 (save) writes exactly that.
+struct Capture
+{
+	std::map<const void*, std::string> values;     // op -> canonical value that was loaded
+	std::map<const void*, bool> opened;            // obj/arr op -> scope was entered
+	bool recording = false;                        // pass 1
+	bool replaying = false;                        // pass 2
+};
+inline Capture*& ActiveCapture() { static Capture* c = nullptr; return c; }
+
 struct Log
 {
 	std::string ev;      // JSON array items, comma separated
@@ -268,11 +278,27 @@ void RunObjectOps(TArchive& archive, const JVal& opsArr, Log* log, TSelf* self, 
 					if constexpr (std::is_arithmetic_v<T> || std::is_same_v<T, std::string>)
 					{
 						T target = Prior<T>();
-						if constexpr (!TArchive::IsLoading()) { if (op.HasMember("v")) FromCanon(op["v"], target); }
+						Capture* cap = ActiveCapture();
+						if constexpr (!TArchive::IsLoading())
+						{
+							if (cap && cap->replaying)
+							{
+								const auto it = cap->values.find(&op);
+								if (it == cap->values.end()) return;
+								rapidjson::Document cv;
+								cv.Parse(it->second.c_str());
+								FromCanon(cv, target);
+							}
+							else if (op.HasMember("v")) FromCanon(op["v"], target);
+						}
 						bool loaded = false;
 						const std::string key = BytesFromJson(op["ks"]);
 						archive << BitSerializer::AttributeValue(key, target, [&loaded](const T&, bool isLoaded) -> std::optional<std::string> { loaded = isLoaded; return std::nullopt; });
-						if constexpr (TArchive::IsLoading()) log->Add(std::string("[\"attr\",") + (loaded ? "true" : "false") + "," + Canon(target) + "]");
+						if constexpr (TArchive::IsLoading())
+						{
+							log->Add(std::string("[\"attr\",") + (loaded ? "true" : "false") + "," + Canon(target) + "]");
+							if (cap && cap->recording && loaded) cap->values[&op] = Canon(target);
+						}
 					}
 				});
 			}
@@ -282,33 +308,53 @@ void RunObjectOps(TArchive& archive, const JVal& opsArr, Log* log, TSelf* self, 
 			WithType(op["t"].GetString(), [&](auto* tag) {
 				using T = std::remove_pointer_t<decltype(tag)>;
 				T target = Prior<T>();
-				if constexpr (!TArchive::IsLoading()) { if (op.HasMember("v")) FromCanon(op["v"], target); }
+				Capture* cap = ActiveCapture();
+				if constexpr (!TArchive::IsLoading())
+				{
+					if (cap && cap->replaying)
+					{
+						const auto it = cap->values.find(&op);
+						if (it == cap->values.end()) return;        // not loaded in pass 1: not written in pass 2
+						rapidjson::Document cv;
+						cv.Parse(it->second.c_str());
+						FromCanon(cv, target);
+					}
+					else if (op.HasMember("v")) FromCanon(op["v"], target);
+				}
 				bool loaded = false;
 				WithKey(op, [&](auto key) {
 					archive << BitSerializer::KeyValue(key, target, [&loaded](const T&, bool isLoaded) -> std::optional<std::string> { loaded = isLoaded; return std::nullopt; });
 				});
-				if constexpr (TArchive::IsLoading()) log->Add(std::string("[\"req\",") + (loaded ? "true" : "false") + "," + Canon(target) + "]");
+				if constexpr (TArchive::IsLoading())
+				{
+					log->Add(std::string("[\"req\",") + (loaded ? "true" : "false") + "," + Canon(target) + "]");
+					if (cap && cap->recording && loaded) cap->values[&op] = Canon(target);
+				}
 			});
 		}
 		else if (kind == "obj")
 		{
 			ScriptObj child(&op["ops"], log);
 			bool loaded = false;
+			Capture* cap = ActiveCapture();
+			if constexpr (!TArchive::IsLoading()) { if (cap && cap->replaying && !cap->opened.count(&op)) continue; }
 			if constexpr (TArchive::IsLoading()) log->Add("[\"open\"]");
 			WithKey(op, [&](auto key) {
 				archive << BitSerializer::KeyValue(key, child, [&loaded](const ScriptObj&, bool isLoaded) -> std::optional<std::string> { loaded = isLoaded; return std::nullopt; });
 			});
-			if constexpr (TArchive::IsLoading()) log->Add(std::string("[\"close\",") + (loaded ? "true" : "false") + "]");
+			if constexpr (TArchive::IsLoading()) { log->Add(std::string("[\"close\",") + (loaded ? "true" : "false") + "]"); if (cap && cap->recording && loaded) cap->opened[&op] = true; }
 		}
 		else if (kind == "arr")
 		{
 			ScriptArr child{ &op["ops"], log, op.HasMember("declared") ? op["declared"].GetUint() : static_cast<unsigned>(op["ops"].Size()) };
 			bool loaded = false;
+			Capture* cap = ActiveCapture();
+			if constexpr (!TArchive::IsLoading()) { if (cap && cap->replaying && !cap->opened.count(&op)) continue; }
 			if constexpr (TArchive::IsLoading()) log->Add("[\"open\"]");
 			WithKey(op, [&](auto key) {
 				archive << BitSerializer::KeyValue(key, child, [&loaded](const ScriptArr&, bool isLoaded) -> std::optional<std::string> { loaded = isLoaded; return std::nullopt; });
 			});
-			if constexpr (TArchive::IsLoading()) log->Add(std::string("[\"close\",") + (loaded ? "true" : "false") + "]");
+			if constexpr (TArchive::IsLoading()) { log->Add(std::string("[\"close\",") + (loaded ? "true" : "false") + "]"); if (cap && cap->recording && loaded) cap->opened[&op] = true; }
 		}
 		else if (kind == "visit")
 		{
@@ -606,6 +652,37 @@ std::string RunRoundTrip(const JVal& scn)
 	out += ",\"loadstream\":" + (streamOk ? RunLoad<TArchive>(scn, stream, "sstream") : std::string("null"));
 	out += ",\"loadshort\":" + (streamOk ? RunLoad<TArchive>(scn, stream, "short3") : std::string("null"));
 	return out + "}";
+}
+
+
+//-----------------------------------------------------------------------------
+// Load-save-load fixed point (C01): a document the loader accepts is loaded with the script, what was loaded is saved
+// with the same script, and the saved document is loaded again: the second load must observe what the first one did.
+// (Scripts for this leg use object-level requests and nested objects/arrays by key; array-level ops are loaded fully.)
+//-----------------------------------------------------------------------------
+template <class TArchive>
+std::string RunFixedPoint(const JVal& scn, const std::string& doc)
+{
+	Capture cap;
+	ActiveCapture() = &cap;
+	cap.recording = true;
+	const std::string first = RunLoad<TArchive>(scn, doc, "mem");
+	cap.recording = false;
+	cap.replaying = true;
+	std::string saved, excSave = "[\"none\"]";
+	try
+	{
+		const auto options = OptionsFrom(scn);
+		const JVal& root = scn["root"];
+		Log log;
+		ScriptObj o(&root["ops"], &log);
+		BitSerializer::SaveObject<TArchive>(o, saved, options);
+	}
+	catch (...) { excSave = DescribeException(); }
+	cap.replaying = false;
+	ActiveCapture() = nullptr;
+	const std::string second = excSave == "[\"none\"]" ? RunLoad<TArchive>(scn, saved, "mem") : std::string("null");
+	return "{\"first\":" + first + ",\"excsave\":" + excSave + ",\"saved\":" + BytesJson(saved) + ",\"second\":" + second + "}";
 }
 
 }  // namespace vh
